@@ -115,6 +115,11 @@ WeakDES == { <<1,1,1,1,1,1,1,1>>, <<254,254,254,254,254,254,254,254>>, <<224,224
 \* "XOR with 0x00000000000000F0"
 FixWeak(k) == IF k \in WeakDES THEN [k EXCEPT ![8] = ((15 - (k[8] \div 16)) * 16) + (k[8] % 16)] ELSE k
 R2K3(r) == FixWeak(Stretch(SubSeq(r, 1, 7))) \o FixWeak(Stretch(SubSeq(r, 8, 14))) \o FixWeak(Stretch(SubSeq(r, 15, 21)))
+\* a des3 protocol key is a value random-to-key can produce (RFC 3961 6.3.1): 24 octets, each of odd parity, none of the three DES
+\* keys weak or semi-weak (implementations that follow the RFC refuse other values: MIT answers KRB5DES_BAD_KEYPAR / BAD_WEAK)
+OddParity(b) == ((b % 2) + ((b \div 2) % 2) + ((b \div 4) % 2) + ((b \div 8) % 2) + ((b \div 16) % 2) + ((b \div 32) % 2) + ((b \div 64) % 2) + ((b \div 128) % 2)) % 2 = 1
+ValidDES3Key(k) == /\ Len(k) = 24 /\ \A i \in 1..24 : OddParity(k[i])
+                   /\ SubSeq(k, 1, 8) \notin WeakDES /\ SubSeq(k, 9, 16) \notin WeakDES /\ SubSeq(k, 17, 24) \notin WeakDES
 DR3(key, constant) ==
   LET c0 == IF Len(constant) = 8 THEN constant ELSE NFold(constant, 64)
       b1 == DES3CBCEnc(key, Zeros(8), c0) b2 == DES3CBCEnc(key, Zeros(8), b1) b3 == DES3CBCEnc(key, Zeros(8), b2)
